@@ -33,8 +33,8 @@ pub fn plan(prop: &str) -> Vec<Batch> {
         "C18" => vec![b("A", "deadwriter", 48, 640), b("A", "flood", 4, 64), b("A", "busy", 20_000, 400_000), b("A", "sckill", 20_000, 400_000), b("A", "weakkill", 10_000, 300_000)],
         "C17" => vec![b("A", "sc", 8_000, 100_000), b("A", "corrupt", 8_000, 100_000), b("B", "abi", 16_000, 400_000), b("B", "synthetic", 16_000, 400_000)],
         "C01" => vec![b("A", "deadwriter", 16, 160), b("A", "sckill", 6_000, 100_000), b("B", "pipeline", 24_000, 600_000), b("B", "restart", 12_000, 300_000), b("B", "tight", 16_000, 400_000), b("B", "coldstart", 8_000, 200_000), b("B", "outage", 8_000, 200_000)],
-        "C05" => vec![b("B", "synthetic", 30_000, 800_000), b("B", "pipeline", 12_000, 300_000), b("B", "tight", 6_000, 100_000)],
-        "C06" => vec![b("B", "synthetic", 30_000, 800_000), b("B", "outage", 12_000, 300_000), b("B", "pipeline", 6_000, 100_000)],
+        "C05" => vec![b("A", "deadwriter", 16, 160), b("B", "synthetic", 30_000, 800_000), b("B", "pipeline", 12_000, 300_000), b("B", "tight", 6_000, 100_000)],
+        "C06" => vec![b("A", "deadwriter", 16, 160), b("B", "synthetic", 30_000, 800_000), b("B", "outage", 12_000, 300_000), b("B", "pipeline", 6_000, 100_000), b("B", "restart", 12_000, 300_000)],
         "C07" => vec![b("B", "formula", 30_000, 800_000), b("B", "pipeline", 12_000, 300_000), b("B", "tight", 6_000, 100_000)],
         "C08" => vec![b("B", "pipeline", 16_000, 400_000), b("B", "outage", 16_000, 400_000), b("B", "restart", 8_000, 200_000), b("B", "leap", 8_000, 200_000)],
         "C09" => vec![b("B", "coldstart", 24_000, 600_000), b("B", "restart", 12_000, 300_000), b("B", "outage", 8_000, 200_000)],
